@@ -39,6 +39,20 @@ RULE = ('random hierarchy + random nets grown from a writer (block-written / top
         'side flips, //= vs connect); case = (design, order); non-trivial = at least two user nets and at least one field/slice object; '
         'distinct = canonical JSON of design and order')
 
+# ---- begin: translator-based tie of the slice-overlap test (tools/py2lean_overlap.py regenerates Gen/OverlapGen.lean from
+# pymtl3/dsl/Connectable.py before the build; Props/C09Gen.lean proves generated `_overlap` = `Nets.overlap` of the model)
+MODULE = [MODULE, 'PymtlVerif.Props.C09Gen']
+THEOREMS = THEOREMS + ['PV.C09Gen.gen_overlap_eq_nets']
+THEOREM_MODULE = {'PV.C09Gen.gen_overlap_eq_nets': 'PymtlVerif.Props.C09Gen'}
+TRUSTED = TRUSTED + ['tools/py2lean_overlap.py (translator, same core and trusted subset as tools/py2lean_bits.py): `_overlap` of Connectable.py is regenerated as Gen/OverlapGen.lean on every run and proved equal to the model\'s Nets.overlap on (lo, hi) pairs (no hypothesis)']
+def pregen(ck):
+  import importlib.util, os
+  path = os.path.join(leanio.VERIF, 'tools', 'py2lean_overlap.py')
+  spec = importlib.util.spec_from_file_location('py2lean_overlap', path)
+  mod = importlib.util.module_from_spec(spec); spec.loader.exec_module(mod)
+  return mod.pregen()
+# ---- end: translator-based tie
+
 def parse_reply(rep):
   r = {x[0]: x[1:] for x in leanio.parse_sexp(rep)}
   return r
